@@ -64,6 +64,8 @@ ASSUMPTIONS = [
     "shift counts are masked, array indices are masked, loops have constant bounds (thorough tier: re-checked with gcc -fsanitize=undefined when libubsan is present)",
     "programs use only int/unsigned/long/unsigned long expressions with both operands of every binary operator cast to the same type, "
     "signed/unsigned char and short only as array elements / struct fields read and written through explicit casts; no sizeof, no floats, no varargs, no libc",
+    "no unspecified evaluation order is observable: expressions have no side effects, a call to a generated function (which may write globals) is always a statement "
+    "of its own whose arguments are call-free (C leaves the order of argument/operand evaluation unspecified: gcc evaluates right to left, ppci left to right)",
 ]
 
 OPTS = [0, 1, 2, "s"]
@@ -209,8 +211,9 @@ class FuncGen:
             return f"({self.cond(d - 1)} ? {self.expr(t, d - 1)} : {self.expr(t, d - 1)})"
         if r < 0.92 and t == "i":
             return self.cond(d - 1)
-        c = self.call(t, d - 1)
-        return c if c else self.leaf(t)
+        # no calls inside expressions: the callees write globals, and C leaves the order in which the operands of an operator
+        # and the arguments of a call are evaluated unspecified (gcc: right to left, ppci: left to right) - calls are statements
+        return self.leaf(t)
 
     def cond(self, d):
         """an int-typed expression that is 0 or 1"""
@@ -254,11 +257,12 @@ class FuncGen:
         return str(rng.randrange(n))
 
     def call(self, t, d):
-        cands = [f for f in self.pg.helpers if f[1] == t and f[0] != self.name]
+        """`f(args)` with call-free argument expressions; only ever used as the complete right-hand side of a statement"""
+        cands = [f for f in self.pg.helpers if (t is None or f[1] == t) and f[0] != self.name]
         if not cands:
-            return None
+            return None, None
         fname, rt, params = self.rng.choice(cands)
-        return f"{fname}({', '.join(self.expr(p, min(d, 1)) for p in params)})"
+        return f"{fname}({', '.join(self.expr(p, min(d, 2)) for p in params)})", rt
 
     # -- statements
     def stmts(self, depth):
@@ -276,6 +280,18 @@ class FuncGen:
         self.budget -= 1
         r = rng.random()
         av = self.assignable()
+        if self.pg.helpers and rng.random() < 0.18:
+            # a call as a statement of its own: every argument is evaluated (in whatever order, they have no side effects) before the call
+            c, rt = self.call(None, 2)
+            if c:
+                same = [v for v in av if self.vars[v] == rt]
+                if same and rng.random() < 0.5:
+                    self.emit(f"{rng.choice(same)} = {c};")
+                else:
+                    v = self.fresh()
+                    self.emit(f"{cname(rt)} {v} = {c};")
+                    self.vars[v] = rt
+                return
         if r < 0.16 or not av:
             t = rng.choice(list(TYPES))
             v = self.fresh()
